@@ -30,6 +30,7 @@ var kinds = map[string]kind{
 	"share": {genShare, runShare},
 	"off":   {genOff, runOff},
 	"sel":   {genSel, runSel},
+	"conn":  {genConn, runConn},
 }
 
 func TestMain(m *testing.M) {
